@@ -106,6 +106,65 @@ func (e *ECF) FromJSONRPCError(j jsonrpc.JSONRPCError) error {
 	return errors.New("ECF: refusing to convert")
 }
 
+// ECFV: like ECF, but the CLIENT registers it in value form (Register(code, new(ECFV))); the
+// handler returns the pointer form so that the server sees a codec and sends the codec's code.
+type ECFV struct {
+	Code jsonrpc.ErrorCode
+	Msg  string
+}
+
+func (e ECFV) Error() string { return e.Msg }
+func (e ECFV) ToJSONRPCError() (jsonrpc.JSONRPCError, error) {
+	return jsonrpc.JSONRPCError{Code: e.Code, Message: e.Msg, Data: "ecfv"}, nil
+}
+func (e *ECFV) FromJSONRPCError(j jsonrpc.JSONRPCError) error {
+	return errors.New("ECFV: refusing to convert")
+}
+
+// EMFV: like EMF, but the CLIENT registers it in value form; the handler returns the pointer
+// form (registered in pointer form on the server), so the server attaches non-empty meta and
+// the client really calls the failing UnmarshalJSON.
+type EMFV struct {
+	A int
+	B string
+}
+
+func (e EMFV) Error() string                 { return e.B }
+func (e EMFV) MarshalJSON() ([]byte, error)  { return json.Marshal(emWire{e.A, e.B}) }
+func (e *EMFV) UnmarshalJSON(b []byte) error { return errors.New("EMFV: refusing to unmarshal") }
+
+// ECT: codec whose server-side conversion (ToJSONRPCError) fails; FromJSONRPCError works.
+type ECT struct {
+	Code jsonrpc.ErrorCode
+	Msg  string
+}
+
+func (e *ECT) Error() string { return e.Msg }
+func (e *ECT) ToJSONRPCError() (jsonrpc.JSONRPCError, error) {
+	return jsonrpc.JSONRPCError{}, errors.New("ECT: refusing to convert")
+}
+func (e *ECT) FromJSONRPCError(j jsonrpc.JSONRPCError) error {
+	e.Code, e.Msg = j.Code, j.Message
+	return nil
+}
+
+// EMT: marshalable whose server-side MarshalJSON fails; UnmarshalJSON works.
+type EMT struct {
+	A int
+	B string
+}
+
+func (e *EMT) Error() string                { return e.B }
+func (e *EMT) MarshalJSON() ([]byte, error) { return nil, errors.New("EMT: refusing to marshal") }
+func (e *EMT) UnmarshalJSON(b []byte) error {
+	var w emWire
+	if err := json.Unmarshal(b, &w); err != nil {
+		return err
+	}
+	e.A, e.B = w.A, w.B
+	return nil
+}
+
 // EB: one plain struct whose value form and pointer form both implement error; the value form
 // is registered under one code and the pointer form under another.
 type EB struct{ M string }
@@ -134,20 +193,35 @@ func (e *EVM) UnmarshalJSON(b []byte) error {
 type kind int
 
 const (
-	kPlain kind = iota
-	kMarsh
-	kMarshFail
-	kCodec
-	kCodecFail
-	kProbeValueMarsh
+	kPlain           kind = iota
+	kMarsh                // marshalable pair, both directions work
+	kMarshFail            // client-side UnmarshalJSON always fails
+	kCodec                // codec, both directions work
+	kCodecFail            // client-side FromJSONRPCError always fails
+	kMarshToFail          // server-side MarshalJSON always fails
+	kCodecToFail          // server-side ToJSONRPCError always fails
+	kProbeValueMarsh      // observation only
 )
 
 type species struct {
 	name string
 	kind kind
-	mk   func(msg string) error // what the handler returns; also the test's "original"
-	reg  interface{}            // argument for Errors.Register (pointer to the registered form)
-	typ  reflect.Type           // the registered form == dynamic type the handler returns
+	mk   func(code jsonrpc.ErrorCode, msg string) error // what the handler returns; also the test's "original"
+	reg  interface{}                                    // Register argument on the server: the form the handler returns
+	regC interface{}                                    // Register argument on the client (nil: same as reg)
+	typ  reflect.Type                                   // dynamic type the handler returns
+	idx  int
+}
+
+// make builds the error the handler returns for message m (codec species carry their own code:
+// always the canonical server-side code of the species).
+func (s species) make(m string) error { return s.mk(sCode(s.idx), m) }
+
+func (s species) clientReg() interface{} {
+	if s.regC != nil {
+		return s.regC
+	}
+	return s.reg
 }
 
 func sCode(i int) jsonrpc.ErrorCode { return jsonrpc.ErrorCode(jsonrpc.FirstUserCode + i) }
@@ -158,31 +232,37 @@ var errorStringT = reflect.TypeOf(errors.New(""))
 var speciesList []species
 
 func init() {
+	type ec = jsonrpc.ErrorCode
+	// The order also fixes the cross-species table (the client registers the code of species i
+	// to species i+1), so failing-conversion species follow a species whose wire form makes the
+	// client attempt the conversion (marshalable ones follow a species that sends meta).
 	speciesList = []species{
-		{"errors.New", kPlain, func(m string) error { return errors.New(m) }, reflect.New(errorStringT).Interface(), errorStringT},
-		{"EV(value)", kPlain, func(m string) error { return EV{m} }, new(EV), reflect.TypeOf(EV{})},
-		{"*EP(pointer)", kPlain, func(m string) error { return &EP{m} }, new(*EP), reflect.TypeOf(&EP{})},
-		{"*EM(marshalable)", kMarsh, func(m string) error { return &EM{A: len(m) - 1, B: m} }, new(*EM), reflect.TypeOf(&EM{})},
-		{"*EMF(unmarshal-fails)", kMarshFail, func(m string) error { return &EMF{A: len(m) - 1, B: m} }, new(*EMF), reflect.TypeOf(&EMF{})},
-		{"*EC(codec)", kCodec, nil, new(*EC), reflect.TypeOf(&EC{})},
-		{"*ECF(codec-from-fails)", kCodecFail, nil, new(*ECF), reflect.TypeOf(&ECF{})},
-		{"EB(value-form)", kPlain, func(m string) error { return EB{m} }, new(EB), reflect.TypeOf(EB{})},
-		{"*EB(pointer-form)", kPlain, func(m string) error { return &EB{m} }, new(*EB), reflect.TypeOf(&EB{})},
-		{"EVM(value-marshalable,probe)", kProbeValueMarsh, func(m string) error { return EVM{A: len(m) - 1, B: m} }, new(EVM), reflect.TypeOf(EVM{})},
+		{name: "errors.New", kind: kPlain, mk: func(_ ec, m string) error { return errors.New(m) }, reg: reflect.New(errorStringT).Interface(), typ: errorStringT},
+		{name: "EV(value)", kind: kPlain, mk: func(_ ec, m string) error { return EV{m} }, reg: new(EV), typ: reflect.TypeOf(EV{})},
+		{name: "*EP(pointer)", kind: kPlain, mk: func(_ ec, m string) error { return &EP{m} }, reg: new(*EP), typ: reflect.TypeOf(&EP{})},
+		{name: "*EM(marshalable)", kind: kMarsh, mk: func(_ ec, m string) error { return &EM{A: len(m) - 1, B: m} }, reg: new(*EM), typ: reflect.TypeOf(&EM{})},
+		{name: "EMFV(value-form,unmarshal-fails)", kind: kMarshFail, mk: func(_ ec, m string) error { return &EMFV{A: len(m) - 1, B: m} }, reg: new(*EMFV), regC: new(EMFV), typ: reflect.TypeOf(&EMFV{})},
+		{name: "*EMF(unmarshal-fails)", kind: kMarshFail, mk: func(_ ec, m string) error { return &EMF{A: len(m) - 1, B: m} }, reg: new(*EMF), typ: reflect.TypeOf(&EMF{})},
+		{name: "*EC(codec)", kind: kCodec, mk: func(c ec, m string) error { return &EC{Code: c, Msg: m, S: "d:" + m, N: len(m) - 1} }, reg: new(*EC), typ: reflect.TypeOf(&EC{})},
+		{name: "ECFV(value-form,codec-from-fails)", kind: kCodecFail, mk: func(c ec, m string) error { return &ECFV{Code: c, Msg: m} }, reg: new(*ECFV), regC: new(ECFV), typ: reflect.TypeOf(&ECFV{})},
+		{name: "*ECF(codec-from-fails)", kind: kCodecFail, mk: func(c ec, m string) error { return &ECF{Code: c, Msg: m} }, reg: new(*ECF), typ: reflect.TypeOf(&ECF{})},
+		{name: "*EMT(marshal-fails)", kind: kMarshToFail, mk: func(_ ec, m string) error { return &EMT{A: len(m) - 1, B: m} }, reg: new(*EMT), typ: reflect.TypeOf(&EMT{})},
+		{name: "*ECT(codec-to-fails)", kind: kCodecToFail, mk: func(c ec, m string) error { return &ECT{Code: c, Msg: m} }, reg: new(*ECT), typ: reflect.TypeOf(&ECT{})},
+		{name: "EB(value-form)", kind: kPlain, mk: func(_ ec, m string) error { return EB{m} }, reg: new(EB), typ: reflect.TypeOf(EB{})},
+		{name: "*EB(pointer-form)", kind: kPlain, mk: func(_ ec, m string) error { return &EB{m} }, reg: new(*EB), typ: reflect.TypeOf(&EB{})},
+		{name: "EVM(value-marshalable,probe)", kind: kProbeValueMarsh, mk: func(_ ec, m string) error { return EVM{A: len(m) - 1, B: m} }, reg: new(EVM), typ: reflect.TypeOf(EVM{})},
 	}
-	// codec species supply their own code: always the canonical server-side code of the species
 	for i := range speciesList {
-		i := i
-		switch speciesList[i].kind {
-		case kCodec:
-			speciesList[i].mk = func(m string) error { return &EC{Code: sCode(i), Msg: m, S: "d:" + m, N: len(m) - 1} }
-		case kCodecFail:
-			speciesList[i].mk = func(m string) error { return &ECF{Code: sCode(i), Msg: m} }
-		}
+		speciesList[i].idx = i
 	}
 }
 
-func isCodec(k kind) bool { return k == kCodec || k == kCodecFail }
+// suppliesOwnCode: the wire code is the one the codec's (succeeding) ToJSONRPCError supplies.
+func suppliesOwnCode(k kind) bool { return k == kCodec || k == kCodecFail }
+
+// sendsMeta: the server attaches non-empty meta, so a marshalable client type is asked to
+// unmarshal it.
+func sendsMeta(k kind) bool { return k == kMarsh || k == kMarshFail }
 
 // ---------------------------------------------------------------- registration tables
 
@@ -235,7 +315,7 @@ func (tb table) clientErrors() (jsonrpc.Errors, bool) {
 	for i := 0; i < 2*len(speciesList)+200; i++ { // deterministic order over all codes in use
 		c := jsonrpc.ErrorCode(jsonrpc.FirstUserCode + i)
 		if si, ok := tb.client[c]; ok {
-			e.Register(c, speciesList[si].reg)
+			e.Register(c, speciesList[si].clientReg())
 		}
 	}
 	return e, true
@@ -260,23 +340,27 @@ func model(tb table, si int) (expectKind, jsonrpc.ErrorCode) {
 	sp := speciesList[si]
 	var wire jsonrpc.ErrorCode = 1
 	srvCode, srvReg := tb.server[si]
-	if isCodec(sp.kind) {
+	if suppliesOwnCode(sp.kind) {
 		wire = sCode(si) // codec supplies its code itself
 	} else if srvReg {
-		wire = srvCode
+		wire = srvCode // incl. species whose server-side conversion fails: createError keeps the table code
 	}
 	cs, has := tb.client[wire]
-	switch {
-	case !has:
+	if !has {
 		return xGeneric, wire
-	case cs == si && srvReg && srvCode == wire:
-		if sp.kind == kMarshFail || sp.kind == kCodecFail {
-			return xDegrade, wire
-		}
-		return xRoundTrip, wire
-	default:
-		return xUnspecified, wire
 	}
+	// the client has a type under the wire code; a conversion that fails must degrade to the
+	// generic error whichever species sent the code
+	switch ck := speciesList[cs].kind; {
+	case ck == kCodecFail:
+		return xDegrade, wire
+	case ck == kMarshFail && sendsMeta(sp.kind):
+		return xDegrade, wire
+	}
+	if cs == si && srvReg && srvCode == wire && (sp.kind == kPlain || sp.kind == kMarsh || sp.kind == kCodec || sp.kind == kProbeValueMarsh) {
+		return xRoundTrip, wire
+	}
+	return xUnspecified, wire
 }
 
 // ---------------------------------------------------------------- server side
@@ -300,7 +384,7 @@ func (h *Handler) Err(sp int, msg string, oc int) error {
 	if oc == ocNil {
 		return nil
 	}
-	return speciesList[sp].mk(msg)
+	return speciesList[sp].make(msg)
 }
 
 func (h *Handler) ValErr(sp int, msg string, oc int) (Val, error) {
@@ -308,9 +392,9 @@ func (h *Handler) ValErr(sp int, msg string, oc int) (Val, error) {
 	case ocNil:
 		return Val{N: 1, S: "ok"}, nil
 	case ocErr:
-		return Val{}, speciesList[sp].mk(msg)
+		return Val{}, speciesList[sp].make(msg)
 	default:
-		return Val{N: 99, S: "leak"}, speciesList[sp].mk(msg)
+		return Val{N: 99, S: "leak"}, speciesList[sp].make(msg)
 	}
 }
 
@@ -488,7 +572,7 @@ func TestC11(t *testing.T) {
 							if shape != "error" && val != (Val{}) {
 								bad("value return is %+v, want the zero value on error", val)
 							}
-							orig := sp.mk(msg)
+							orig := sp.make(msg)
 
 							generic := func(why string) {
 								je, ok := got.(*jsonrpc.JSONRPCError)
@@ -539,6 +623,10 @@ func TestC11(t *testing.T) {
 								}
 							case xUnspecified:
 								unspecifiedSeen[fmt.Sprintf("%s/%s -> %T", tb.name, sp.name, got)]++
+								// whatever the client builds, if it is the generic error it carries the handler's message
+								if je, ok := got.(*jsonrpc.JSONRPCError); ok && je.Message != orig.Error() {
+									bad("generic error received but its Message %q differs from the handler's Error()", trunc(je.Message))
+								}
 							}
 						}
 					}
@@ -553,8 +641,9 @@ func TestC11(t *testing.T) {
 	c.Extra("transports", transports)
 	c.Write(t, exhaustive, fmt.Sprintf("complete product: %d transports x 6 registration tables (none, same code both sides, client only, server only, "+
 		"different codes, code registered to another species on the client) x %d error species (errors.New, plain value, plain pointer, marshalable, "+
-		"marshalable with failing UnmarshalJSON, codec, codec with failing FromJSONRPCError, one struct in value form and in pointer form under two codes, "+
-		"plus a value-form marshalable probe) x 8 messages (empty, ascii, escaping-heavy, U+0001, U+2028, 3-byte, 4-byte, 4 KiB) x "+
+		"marshalable with failing UnmarshalJSON in pointer-form and in value-form client registration, codec, codec with failing FromJSONRPCError in "+
+		"pointer-form and in value-form client registration, marshalable with failing MarshalJSON, codec with failing ToJSONRPCError, one struct in "+
+		"value form and in pointer form under two codes, plus a value-form marshalable probe) x 8 messages (empty, ascii, escaping-heavy, U+0001, U+2028, 3-byte, 4-byte, 4 KiB) x "+
 		"{shape error: err; shape (T,error): err, err with non-zero value}, and the nil outcome once per species and shape; one server+client per "+
 		"(table, transport); each call compared with a table-lookup reference model", len(transports), len(speciesList)))
 }
